@@ -3,7 +3,7 @@
    checks of yaep_read_grammar / check_grammar in the order of the C code;
    [defect_b c] decides the defect documented for code c independently of any
    order; [well_formed_b] is the absence of all of them. *)
-From YV Require Import Prelude Generated ReadGrammar ReadGrammarProofs.
+From YV Require Import Prelude Generated ReadGrammar ReadGrammarProofs ReadGrammarSem.
 Local Open Scope Z_scope.
 
 Theorem C10_ok_iff : forall strict terms rules,
@@ -19,3 +19,22 @@ Print Assumptions C10_code_names_defect.
 Theorem C10_reserved_codes : END_MARKER_CODE < 0 /\ TERM_ERROR_CODE < 0.
 Proof. vm_compute. split; reflexivity. Qed.
 Print Assumptions C10_reserved_codes.
+
+Local Close Scope Z_scope.
+(* What the defects 15 and 16 are about, semantically: the flag "derives a
+   terminal string" computed by the repeated passes of set_empty_access_derives
+   holds exactly for the nonterminals that have a rule whose right-hand side can
+   be rewritten to terminals, the flag "derives the empty string" exactly for
+   those whose right-hand side can be rewritten to nothing (the fixed number of
+   passes always reaches the fixpoint). *)
+Theorem C10_productive_flag_meaning : forall terms rules x,
+  memn x (productive terms rules) = true <->
+  exists rhs, In (x, rhs) (arules rules) /\ gen (arules rules) (is_term terms) rhs.
+Proof. exact productive_spec. Qed.
+Print Assumptions C10_productive_flag_meaning.
+
+Theorem C10_nullable_flag_meaning : forall rules x,
+  memn x (nullable rules) = true <->
+  exists rhs, In (x, rhs) (arules rules) /\ gen (arules rules) (fun _ => false) rhs.
+Proof. exact nullable_spec. Qed.
+Print Assumptions C10_nullable_flag_meaning.
